@@ -973,9 +973,9 @@ theorem sort_raw_spec (es : List RawEntry) : RawSorted (sortRaw es) ∧ (sortRaw
   ⟨sortRaw_sorted es, sortRaw_perm es⟩
 
 def rawDoc : List RawEntry :=
-  [⟨false, bytes "listb", false, true, 2⟩, ⟨true, [], true, false, 0⟩,
-   ⟨false, bytes "bad key", false, true, 3⟩, ⟨false, bytes "lista", true, false, 0⟩,
-   ⟨false, bytes "services.json", false, true, 4⟩, ⟨false, bytes "lista", false, true, 1⟩]
+  [⟨false, bytes "listb", false, true, 2, false⟩, ⟨true, [], true, false, 0, false⟩,
+   ⟨false, bytes "bad key", false, true, 3, false⟩, ⟨false, bytes "lista", true, false, 0, false⟩,
+   ⟨false, bytes "services.json", false, true, 4, false⟩, ⟨false, bytes "lista", false, true, 1, false⟩]
 
 /-- Non-vacuity: the sort moves entries (the `null` last, `bad key` first), keeps the two `lista`
 entries in document order, and numbering keys by their bytes as base-256 digits is faithful here. -/
@@ -1044,7 +1044,7 @@ theorem rule_lists_never_touch_reserved_files (got : RawEntry → Option Nat) (d
 valid ID —, and the download of "its" rule list replaces the blocked-service index in the cache
 directory by the rule list; on the repaired tree the file stays. -/
 theorem reserved_key_overwrites_services_counterexample :
-    let e : RawEntry := ⟨false, bytes "services.json", false, true, 4⟩
+    let e : RawEntry := ⟨false, bytes "services.json", false, true, 4, false⟩
     let d : Dir := fun n => if n = servicesFile then some 2 else none
     (classify false (fun _ => 0) e).keyOk = true ∧ (classify false (fun _ => 0) e).urlOk = true ∧
       writeLists false (fun _ => some 9) d [e] servicesFile = some 9 ∧
@@ -1075,6 +1075,190 @@ theorem foreign_services_file_stops_every_start (E : Env) (cfg : Cfg) (s : St) (
 
 example : (refreshStorage nullEnv (nullCfg true) (restart { St.empty with svcDisk := some 9 })
     (nullRound true)).2 = false := by decide
+
+/-! ## The safe-search filters and the whole of `Default.refresh` -/
+
+/-- **ss_failed_keeps_previous.** A safe-search filter whose download fails in any way (and whose
+cache file is not usable) keeps what it serves and its cache file. -/
+theorem ss_failed_keeps_previous (E : Env) (max : Nat) (a : Bool) (s : HSt) (f : Bool) (r : Resp)
+    (hc : fromFile E a f s.disk = none) (hf : fromURL E max r = none) :
+    refreshRL E max a s f r = (s, false) := by
+  simp [refreshRL, refresh, hc, hf]
+
+/-- **ss_old_or_new.** After any refresh a safe-search filter serves its previous document, the
+stored one, or the one the server offered completely; its cache file holds the previous or that
+offered document. -/
+theorem ss_old_or_new (E : Env) (max : Nat) (a : Bool) (s : HSt) (f : Bool) (r : Resp) :
+    ((refreshRL E max a s f r).1.mem = s.mem ∨
+      ∃ c, (refreshRL E max a s f r).1.mem = some c ∧ (s.disk = some c ∨ Offers E max r c)) ∧
+    ((refreshRL E max a s f r).1.disk = s.disk ∨
+      ∃ c, (refreshRL E max a s f r).1.disk = some c ∧ Offers E max r c) := by
+  unfold refreshRL
+  rcases refresh_cases E max a s.disk f r with ⟨c, hd, _, hr⟩ | ⟨_, c, hu, hr⟩ | ⟨_, _, hr⟩
+  · simp only [hr]; exact ⟨Or.inr ⟨c, rfl, Or.inl hd⟩, by simp⟩
+  · simp only [hr]
+    have ho := fromURL_some E max r c hu
+    exact ⟨Or.inr ⟨c, rfl, Or.inr ho⟩, Or.inr ⟨c, rfl, ho⟩⟩
+  · simp [hr]
+
+/-- **full_round_frame.** The whole round with the safe-search filters leaves the storage either
+exactly as `refreshStorage` leaves it, or — when a safe-search refresh failed — as `refreshStorage`
+leaves it except that every rule list still serves its previous document.  Hence every per-round
+theorem above about files, services and "previous or new" carries over to the whole round. -/
+theorem full_round_frame (E : Env) (cfg : Cfg) (s : St) (ss : SSt) (R : Round) (SR : SRound) :
+    ((refreshFull E cfg s ss R SR).1.1 = (refreshStorage E cfg s R).1 ∧
+      ((refreshFull E cfg s ss R SR).2 = false → (refreshStorage E cfg s R).2 = false)) ∨
+    ((refreshFull E cfg s ss R SR).2 = false ∧
+      (refreshFull E cfg s ss R SR).1.1 = { (refreshStorage E cfg s R).1 with rl := s.rl }) := by
+  unfold refreshFull
+  by_cases h1 : (refreshStorage E cfg s R).2 = true
+  · by_cases h2 : (ssPart E SR R.acceptStale ss).2 = true
+    · simp [h1, h2]
+    · simp [h1, h2]
+  · simp [h1]
+
+/-- A round of `refreshStorage` that reports an error has swapped no rule list. -/
+theorem storage_error_keeps_rule_lists (E : Env) (cfg : Cfg) (s : St) (R : Round)
+    (h : (refreshStorage E cfg s R).2 = false) : (refreshStorage E cfg s R).1.rl = s.rl := by
+  cases h1 : (refresh E cfg.idxMax R.acceptStale s.idxDisk R.idxFresh R.idxResp).1 with
+  | none => unfold refreshStorage; simp [h1]
+  | some d =>
+    cases h2 : E.idx d with
+    | none => unfold refreshStorage; simp [h1, h2]
+    | some es =>
+      rcases (storage_lists E cfg s R d es h1 h2).2 with ⟨_, h3⟩ | ⟨h3, _⟩
+      · rw [h] at h3; cases h3
+      · exact h3
+
+/-- **full_error_keeps_rule_lists.** When the whole round reports an error, no rule list has
+changed what it serves — also when the error comes from a safe-search download after every rule
+list and the services were downloaded successfully. -/
+theorem full_error_keeps_rule_lists (E : Env) (cfg : Cfg) (s : St) (ss : SSt) (R : Round)
+    (SR : SRound) (h : (refreshFull E cfg s ss R SR).2 = false) :
+    (refreshFull E cfg s ss R SR).1.1.rl = s.rl := by
+  rcases full_round_frame E cfg s ss R SR with ⟨h1, h2⟩ | ⟨_, h1⟩
+  · rw [h1]; exact storage_error_keeps_rule_lists E cfg s R (h2 h)
+  · rw [h1]
+
+/-- **full_visible_step.** Whatever is visible in the storage after a whole round was visible
+before or was offered completely in the round. -/
+theorem full_visible_step (E : Env) (cfg : Cfg) (hfix : cfg.keepInvalid = true) (s : St) (ss : SSt)
+    (R : Round) (SR : SRound) (c : Nat) (h : Visible (refreshFull E cfg s ss R SR).1.1 c) :
+    Visible s c ∨ OfferedIn E cfg R c := by
+  rcases full_round_frame E cfg s ss R SR with ⟨h1, _⟩ | ⟨_, h1⟩
+  · rw [h1] at h; exact visible_step E cfg hfix s R c h
+  · rw [h1] at h
+    rcases h with ⟨k, h | h⟩ | h | h | h
+    · exact Or.inl (Or.inl ⟨k, Or.inl h⟩)
+    · exact visible_step E cfg hfix s R c (Or.inl ⟨k, Or.inr h⟩)
+    · exact visible_step E cfg hfix s R c (Or.inr (Or.inl h))
+    · exact visible_step E cfg hfix s R c (Or.inr (Or.inr (Or.inl h)))
+    · exact visible_step E cfg hfix s R c (Or.inr (Or.inr (Or.inr h)))
+
+/-- Non-vacuity: the index names key 7 with a healthy URL offering 9, the general safe-search
+download fails: the round reports an error, key 7 still serves 5 although its file already holds 9;
+with a healthy safe-search download the same round serves 9. -/
+def ssEnv : Env :=
+  { cexEnv with idx := fun c => if c = 1 then some [⟨7, true, true, 4⟩] else none }
+def ssRound : Round := { cexRound with resp := fun u => if u = 4 then .resp 200 9 false true else .getErr }
+def ssS : SSt := { gen := { mem := some 3, disk := some 3 }, yt := { mem := none, disk := none } }
+def ssSR (r : Resp) : SRound :=
+  { max := 100, genOn := true, genFresh := false, genResp := r, ytOn := false, ytFresh := false,
+    ytResp := .getErr }
+example : (refreshFull ssEnv (cexCfg true) cexSt ssS ssRound (ssSR (.resp 503 8 false true))).2 = false ∧
+    (refreshFull ssEnv (cexCfg true) cexSt ssS ssRound (ssSR (.resp 503 8 false true))).1.1.rl 7 = some 5 ∧
+    (refreshFull ssEnv (cexCfg true) cexSt ssS ssRound (ssSR (.resp 503 8 false true))).1.1.rlDisk 7 = some 9 ∧
+    (refreshFull ssEnv (cexCfg true) cexSt ssS ssRound (ssSR (.resp 503 8 false true))).1.2.gen.mem = some 3 := by
+  decide
+example : (refreshFull ssEnv (cexCfg true) cexSt ssS ssRound (ssSR (.resp 200 8 false true))).2 = true ∧
+    (refreshFull ssEnv (cexCfg true) cexSt ssS ssRound (ssSR (.resp 200 8 false true))).1.1.rl 7 = some 9 ∧
+    (refreshFull ssEnv (cexCfg true) cexSt ssS ssRound (ssSR (.resp 200 8 false true))).1.2.gen.mem = some 8 := by
+  decide
+
+/-! ## Index elements of the wrong JSON type (fourth finding) -/
+
+/-- What an index content means, given the elements of its `filters` array as `encoding/json` sees
+them (`raw c = none`: not a JSON object with such an array at all): decoded (`decodeDoc`), sorted and
+validated (`loadRaw`). -/
+def idxOfRaw (cfg : Cfg) (num : List Nat → Nat) (raw : Nat → Option (List RawEntry)) (c : Nat) :
+    Option (List Entry) :=
+  ((raw c).bind (decodeDoc cfg.lenientDecode)).map (loadRaw cfg.rejectReserved num)
+
+/-- **mistyped_entries_never_refuse_index.** On the repaired tree every JSON document whose `filters`
+is an array is an index, whatever its elements are — objects, `null`s, strings, arrays, numbers,
+objects whose `filterKey` or `downloadUrl` has the wrong type: decoding yields all elements, each
+reduced to what is left of it. -/
+theorem mistyped_entries_never_refuse_index (cfg : Cfg) (num : List Nat → Nat)
+    (raw : Nat → Option (List RawEntry)) (c : Nat) (es : List RawEntry)
+    (hfix : cfg.lenientDecode = true) (hraw : raw c = some es) :
+    idxOfRaw cfg num raw c = some (loadRaw cfg.rejectReserved num es) := by
+  simp [idxOfRaw, hraw, decodeDoc, hfix]
+
+/-- **valid_entries_applied_next_to_mistyped.** `valid_entries_applied` for the documents as the
+code reads them: in a round that returns no error and is governed by a document with the decoded
+elements `raw` — any number of them of the wrong JSON type — a key whose valid entries all carry the
+URL `u` serves its stored, else the downloaded, else its previous document; and a served list whose
+only entry is a broken one keeps its list (`named_list_never_dropped` applies to
+`loadRaw … raw` as it stands). -/
+theorem valid_entries_applied_next_to_mistyped (E : Env) (cfg : Cfg) (s : St) (R : Round) (d : Nat)
+    (num : List Nat → Nat) (raw : Nat → Option (List RawEntry)) (es : List RawEntry)
+    (hE : E.idx = idxOfRaw cfg num raw)
+    (hfix : cfg.keepInvalid = true) (hlen : cfg.lenientDecode = true)
+    (hidx : (refresh E cfg.idxMax R.acceptStale s.idxDisk R.idxFresh R.idxResp).1 = some d)
+    (hraw : raw d = some es) (hok : (refreshStorage E cfg s R).2 = true) (k u : Nat)
+    (hu : ∀ e ∈ loadRaw cfg.rejectReserved num es, e.key = k → e.keyOk = true → e.urlOk = true →
+      e.url = u)
+    (hex : ∃ e ∈ loadRaw cfg.rejectReserved num es, e.key = k ∧ e.keyOk = true ∧ e.urlOk = true) :
+    (refreshStorage E cfg s R).1.rl k = (target E cfg R s k u).1 ∧
+    (refreshStorage E cfg s R).1.rlDisk k = (target E cfg R s k u).2 :=
+  valid_entries_applied E cfg s R d _ hfix hidx
+    (by rw [hE]; exact mistyped_entries_never_refuse_index cfg num raw d es hlen hraw) hok k u hu hex
+
+/-- The witness of the fourth finding: the index (content 1) names `lista` with a healthy URL and has
+one more element whose `filterKey` is a number; URL 1 offers content 9 completely. -/
+def typDoc : List RawEntry :=
+  [⟨false, bytes "lista", false, true, 1, false⟩, ⟨false, [], false, true, 2, true⟩]
+def typNum (k : List Nat) : Nat := if k = bytes "lista" then 7 else 0
+def typCfg (fixed : Bool) : Cfg :=
+  { idxMax := 100, rlMax := 100, svcMax := 100, svcEnabled := false, keepInvalid := true,
+    svcNilCheck := true, lenientDecode := fixed }
+def typEnv (fixed : Bool) : Env :=
+  { len := fun _ => 10, idx := idxOfRaw (typCfg fixed) typNum (fun c => if c = 1 then some typDoc else none),
+    svc := fun _ => some [], hashOk := fun _ => true }
+def typRound (initial : Bool) : Round :=
+  { acceptStale := initial, idxFresh := false, idxResp := .resp 200 1 false true, fresh := fun _ => false,
+    resp := fun u => if u = 1 then .resp 200 9 false true else .getErr, svcFresh := false,
+    svcResp := .getErr }
+
+/-- **mistyped_entry_refuses_index_counterexample.** On the tree as found (`lenientDecode = false`)
+"the valid entries of a partially invalid index are still applied" is false: one element of the
+wrong JSON type makes `Decode` fail, so the round returns an error and the healthy new document of
+`lista` (content 9) is not applied although its server offers it — the served list stays at 5 for as
+long as the index contains that element; the index itself has been stored (`filters.json` = 1)
+before it was decoded, so a restart (`RefreshInitial` on the stored file) fails too and serves no
+list at all.  On the repaired tree the same round succeeds, serves 9, and the restart comes up.
+Reproduced on the real code by the harness (signature `index-refused:mistyped-entry`,
+`restart-fails-on-complete-cache`), repaired by the fourth `fix:` commit. -/
+theorem mistyped_entry_refuses_index_counterexample :
+    ((refreshStorage (typEnv false) (typCfg false) cexSt (typRound false)).2 = false ∧
+      (refreshStorage (typEnv false) (typCfg false) cexSt (typRound false)).1.rl 7 = some 5 ∧
+      (refreshStorage (typEnv false) (typCfg false) cexSt (typRound false)).1.idxDisk = some 1 ∧
+      (refreshStorage (typEnv false) (typCfg false)
+        (restart (refreshStorage (typEnv false) (typCfg false) cexSt (typRound false)).1)
+        (typRound true)).2 = false) ∧
+    ((refreshStorage (typEnv true) (typCfg true) cexSt (typRound false)).2 = true ∧
+      (refreshStorage (typEnv true) (typCfg true) cexSt (typRound false)).1.rl 7 = some 9 ∧
+      (refreshStorage (typEnv true) (typCfg true)
+        (restart (refreshStorage (typEnv true) (typCfg true) cexSt (typRound false)).1)
+        (typRound true)).1.rl 7 = some 9) := by
+  decide
+
+/-- Non-vacuity of `valid_entries_applied_next_to_mistyped`: `typDoc` has a valid entry for key 7
+with URL 1 next to the mistyped element. -/
+example : ∃ e ∈ loadRaw true typNum typDoc, e.key = 7 ∧ e.keyOk = true ∧ e.urlOk = true :=
+  ⟨⟨7, true, true, 1⟩, by decide, rfl, rfl, rfl⟩
+example : idxOfRaw (typCfg false) typNum (fun c => if c = 1 then some typDoc else none) 1 = none := by
+  decide
 
 end Agd.Refresh
 
@@ -1120,6 +1304,15 @@ end Agd.Refresh
 #print axioms Agd.Refresh.rule_lists_never_touch_reserved_files
 #print axioms Agd.Refresh.reserved_key_overwrites_services_counterexample
 #print axioms Agd.Refresh.foreign_services_file_stops_every_start
+#print axioms Agd.Refresh.ss_failed_keeps_previous
+#print axioms Agd.Refresh.ss_old_or_new
+#print axioms Agd.Refresh.full_round_frame
+#print axioms Agd.Refresh.storage_error_keeps_rule_lists
+#print axioms Agd.Refresh.full_error_keeps_rule_lists
+#print axioms Agd.Refresh.full_visible_step
+#print axioms Agd.Refresh.mistyped_entries_never_refuse_index
+#print axioms Agd.Refresh.valid_entries_applied_next_to_mistyped
+#print axioms Agd.Refresh.mistyped_entry_refuses_index_counterexample
 #print axioms Agd.Tie.TrC13.translation_complete
 #print axioms Agd.Tie.TrC13.cleanup_or_replace
 #print axioms Agd.Tie.TrC13.replace_only_after_complete_download
